@@ -135,4 +135,12 @@ theorem C12_wiring :
 theorem C12_signing_key_env : Sso.Generated.skel_proxy_parseEnvironment =
     ["call:make", "call:len", "if{", "return", "}", "range{", "call:HasPrefix", "if{", "continue", "}", "call:SplitN", "call:TrimPrefix", "call:ToLower", "store:env[]", "}", "return"] := by decide
 
+/-- Tie (T1), second wave: helpers, stores and second callers on this property's path (cfg_generateHmacAuth, proxy_upstreamTransport_RoundTrip) — call/branch/store skeletons
+regenerated from the source on every run against the expectations frozen here. -/
+theorem C12_wiring2 :
+    Sso.Generated.skel_cfg_generateHmacAuth =
+      ["call:Split", "call:len", "if{", "call:Errorf", "return", "}", "call:DigestNameToCryptoHash", "if{", "call:Errorf", "return", "}", "call:?", "call:NewHmacAuth", "return"] ∧
+    Sso.Generated.skel_proxy_upstreamTransport_RoundTrip =
+      ["call:getTransport", "call:RoundTrip", "if{", "return", "}", "return"] := by decide
+
 end Sso.Forward
